@@ -159,8 +159,13 @@ Fixpoint iter_binomial_from (fuel : nat) (n k a : nat) : list nat :=
   end.
 Definition iter_binomial (n : nat) : list nat := iter_binomial_from (S (S n)) n 0%nat 1%nat.
 
-(* central_moment_coefficients(moments): IterBinomial::new(moments.len()).zip(moments.rev()) *)
+(* central_moment_coefficients(moments): IterBinomial::new(moments.len() - 1).zip(moments.rev()):
+   the binomial coefficients of order p for the p + 1 moments of orders 0..=p (defect D7 repaired) *)
 Definition central_moment_coefficients (ms : list T) : list T :=
+  map (fun bm => o_of_nat O (fst bm) * snd bm) (combine (iter_binomial (Nat.pred (length ms))) (rev ms)).
+
+(* the pre-repair coefficients (defect D7): IterBinomial::new(moments.len()), i.e. order p + 1 *)
+Definition central_moment_coefficients_v0 (ms : list T) : list T :=
   map (fun bm => o_of_nat O (fst bm) * snd bm) (combine (iter_binomial (length ms)) (rev ms)).
 
 (* horner_method: for c in coefficients.rev() { result = c + x * result } *)
@@ -177,6 +182,18 @@ Definition central_moment (pl : plan) (data : list T) (p : nat) : T :=
     let sm := moments (plan_of_map pl (length data)) shifted p in
     let corr := o_neg O (nth 1 sm zero) in
     horner (central_moment_coefficients sm) corr
+  end.
+
+Definition central_moment_v0 (pl : plan) (data : list T) (p : nat) : T :=
+  match p with
+  | 0 => one
+  | 1 => zero
+  | _ =>
+    let m := mean pl data in
+    let shifted := map (fun x => x - m) data in
+    let sm := moments (plan_of_map pl (length data)) shifted p in
+    let corr := o_neg O (nth 1 sm zero) in
+    horner (central_moment_coefficients_v0 sm) corr
   end.
 
 Definition central_moments (pl : plan) (data : list T) (p : nat) : list T :=
